@@ -109,6 +109,11 @@ def parse_log(text, names):
                 fclasses.add("functional")
             else:
                 fclasses.add("functional")
+        if st == "FAILED" and not fclasses:
+            # e.g. a #[kani::should_panic] harness that did not panic: no failed check is listed
+            fclasses.add("functional")
+            m2 = re.search(r"VERIFICATION:- FAILED[^\n]*", t)
+            fails = fails or [m2.group(0) if m2 else "VERIFICATION:- FAILED"]
         cov = re.findall(r"(\d+) of (\d+) cover properties satisfied", t)
         cover_ok = all(a == b2 for a, b2 in cov) if cov else True
         res[h] = {"harness": h, "status": st, "checks": checks, "n_failed": nfail, "time_s": tm,
